@@ -1,13 +1,15 @@
 #!/bin/bash
-# For every seeded change: run the owner property's quick check WITH replay against a patched
-# scratch copy and record, per VIOLATION line, whether the counterexample reproduced on the real
-# code (no suffix) or not (no-failing-input-found).
+# For every seeded change (or the ones matching $2 glob): run the owner property's quick check WITH
+# replay against a patched scratch copy and record, per VIOLATION line, whether the counterexample
+# reproduced on the real code or not (no-failing-input-found). usage: tools/replay_matrix.sh [N] [glob]
 cd /verif
-for d in seeded/*/; do
-  id=$(basename $d); prop=${id%-*}
-  [ -n "${1:-}" ] && [ "$1" != "$id" ] && continue
-  out=$(tools/mut.sh /verif/$d/patch.diff -- check $prop 2>&1)
+N=${1:-3}; G=${2:-*}
+one() {
+  id=$1; prop=${id%-*}
+  out=$(tools/mut.sh /verif/seeded/$id/patch.diff -- check $prop 2>&1)
   tot=$(echo "$out" | grep -c "^VIOLATION")
   nf=$(echo "$out" | grep "^VIOLATION" | grep -c "no-failing-input-found")
   echo "$id violations=$tot replayed_on_real_code=$((tot-nf)) no_failing_input=$nf"
-done
+}
+export -f one
+ls -d seeded/$G/ | xargs -n1 basename | xargs -P $N -I{} bash -c 'one {}'
